@@ -26,6 +26,7 @@ pub fn prop() -> Prop {
             Sub::tape("rounded_rectangle", 72, 140_000, 7_000_000, |d, cx| run(d, cx, 3)),
             Sub::tape("large", 72, 3_000, 150_000, |d, cx| { let k = d.u(0, 3); run(d, cx, k + 100) }),
             Sub::tape("huge_sampled_rows", 1400, 1_200, 60_000, huge),
+            Sub::enumerate("circle_all_diameters", circle_all_diameters),
         ],
     }
 }
@@ -346,6 +347,136 @@ pub fn huge_size(d: &mut Dec) -> u32 {
     }
 }
 
+
+/// Draws the styled shape onto a row-sampling target and judges the sampled rows against `fill_area()` /
+/// `stroke_area()` at probes: run ends, box edges, the boundaries of both areas found by bisection (only a
+/// way to find interesting probes: every probe is judged by the areas themselves) and `$nrand` probes from `$rand`.
+macro_rules! judge_rows {
+    ($kind:expr, $p:expr, $style:expr, $rows:expr, $nrand:expr, $rand:expr) => {{
+        (|| -> Result<(u64, u64), Fail> {
+            let p = $p;
+            let kind: &str = $kind;
+            let style = $style;
+            let rows: &std::collections::BTreeSet<i32> = $rows;
+            let mut rand = $rand;
+            let s = p.into_styled(style);
+            let (fa, sa) = (s.fill_area(), s.stroke_area());
+            let bb = s.bounding_box();
+            let pb = p.bounding_box();
+            let mut t = RowsT::new(rows.iter().copied());
+            s.draw(&mut t).map_err(|e| Fail { sig: format!("{}:draw_error", kind), detail: format!("{:?}", e) })?;
+            let expected = |q: Point| {
+                if fa.contains(q) {
+                    style.fill_color
+                } else if sa.contains(q) && style.stroke_width > 0 {
+                    style.stroke_color
+                } else {
+                    None
+                }
+            };
+            let (x0, x1) = (bb.top_left.x.min(pb.top_left.x), (bb.top_left.x + bb.size.width as i32).max(pb.top_left.x + pb.size.width as i32));
+            let (mut fill_rows, mut stroke_rows) = (0u64, 0u64);
+            for &y in rows {
+                let mut probes: std::collections::BTreeSet<i32> = Default::default();
+                let mut near = |x: i32| {
+                    for k in -2..=2 {
+                        probes.insert(x + k);
+                    }
+                };
+                near(x0);
+                near(x1);
+                near((x0 + x1) / 2);
+                for x in t.run_ends(y) {
+                    near(x);
+                }
+                for area_is_fill in [false, true] {
+                    let inside = |x: i32| if area_is_fill { fa.contains(Point::new(x, y)) } else { sa.contains(Point::new(x, y)) };
+                    let mid = (x0 + x1) / 2;
+                    if inside(mid) {
+                        let (mut lo, mut hi) = (x0 - 2, mid);
+                        while hi - lo > 1 {
+                            let m = lo + (hi - lo) / 2;
+                            if inside(m) { hi = m } else { lo = m }
+                        }
+                        near(hi);
+                        let (mut lo, mut hi) = (mid, x1 + 2);
+                        while hi - lo > 1 {
+                            let m = lo + (hi - lo) / 2;
+                            if inside(m) { lo = m } else { hi = m }
+                        }
+                        near(lo);
+                    }
+                }
+                for _ in 0..$nrand {
+                    probes.insert(rand(x0 - 3, x1 + 3));
+                }
+                for &x in &probes {
+                    let q = Point::new(x, y);
+                    let (exp, got) = (expected(q), t.color_at(q));
+                    if exp.is_some() && fa.contains(q) { fill_rows += 1; }
+                    if exp.is_some() && !fa.contains(q) { stroke_rows += 1; }
+                    if exp != got && kind == "rounded_rectangle" {
+                        // F-26 (known finding): points where fill area / shape / stroke area are not nested
+                        let (f, sh, st) = (fa.contains(q), p.contains(q), sa.contains(q));
+                        if (f && !sh) || (f && !st) || (sh && !st) {
+                            return fail("rounded_rectangle:areas_not_nested", format!("fill_area() / the shape / stroke_area() are not nested at {:?} (fill {}, shape {}, stroke {}), and draw() differs from the areas there: leaves {:?}, areas give {:?}", q, f, sh, st, got, exp));
+                        }
+                    }
+                    ensure!(exp == got, format!("{}:draw_vs_areas", kind), "{:?}: draw() leaves {:?}, fill_area()/stroke_area() give {:?} (fill_area contains: {}, stroke_area contains: {})", q, got, exp, fa.contains(q), sa.contains(q));
+                }
+            }
+            Ok((fill_rows, stroke_rows))
+        })()
+    }};
+}
+
+/// Complete over the diameter: every circle of 1..=6000 px (thorough: to 20000) with a 1-px Inside stroke (so
+/// that every fill diameter occurs as well) and, rotating with the diameter, a Center / Outside stroke of
+/// 2..=5 px, judged on the characteristic rows (top, 45 and 30 degree points, centre, bottom, the stroke /
+/// fill transitions) and a few rows derived from the diameter.
+fn circle_all_diameters(ex: &Ex) {
+    let max: u64 = ex.tier.pick(6000, 20000);
+    ex.par(max, |i| {
+        let dia = (i + 1) as u32;
+        let tl = Point::new(-(dia as i32) / 2 + (dia % 5) as i32 - 2, -(dia as i32) / 3);
+        let c = Circle::new(tl, dia);
+        let (mut n, mut nt) = (0u64, 0u64);
+        for variant in 0..2 {
+            let mut b = PrimitiveStyleBuilder::<Rgb888>::new().fill_color(Rgb888::nth(1)).stroke_color(Rgb888::nth(2));
+            b = if variant == 0 {
+                b.stroke_width(1).stroke_alignment(StrokeAlignment::Inside)
+            } else {
+                b.stroke_width(2 + dia % 4).stroke_alignment(if dia % 2 == 0 { StrokeAlignment::Center } else { StrokeAlignment::Outside })
+            };
+            let style = b.build();
+            let mut rows: std::collections::BTreeSet<i32> = Default::default();
+            let h = dia as f64;
+            for frac in [0.0, 0.0670, 0.14645, 0.25, 0.5, 0.75, 0.85355, 0.9330, 1.0] {
+                for k in -2..=2 {
+                    rows.insert(tl.y + (h * frac) as i32 + k);
+                }
+            }
+            let mut x = dia.wrapping_mul(0x9E37_79B1) | 1;
+            for _ in 0..4 {
+                x ^= x << 13;
+                x ^= x >> 17;
+                x ^= x << 5;
+                rows.insert(tl.y + (x % dia.max(1)) as i32);
+            }
+            let r = judge_rows!("circle", c, style, &rows, 0, |_lo: i32, _hi: i32| 0);
+            n += 1;
+            match r {
+                Ok((f, s)) => nt += u64::from(f > 0 && s > 0),
+                Err(fl) => ex.fail(i * 2 + variant, fl.sig, fl.detail, format!("{:?} {}", c, gen::style_desc(&style))),
+            }
+        }
+        if dia % 1999 == 0 {
+            ex.sample(|| format!("Circle d={} at {:?}: 1-px Inside stroke and a {}-px second stroke, {} characteristic rows each", dia, tl, 2 + dia % 4, 49));
+        }
+        ex.add(n, nt);
+    });
+}
+
 fn huge(d: &mut Dec, cx: &mut Cx) -> Res {
     if d.bool() {
         huge_c::<Rgb888>(d, cx)
@@ -390,7 +521,6 @@ fn huge_c<C: Col>(d: &mut Dec, cx: &mut Cx) -> Res {
             let p = $p;
             let kind = shape.kind();
             let s = p.into_styled(style);
-            let (fa, sa) = (s.fill_area(), s.stroke_area());
             let bb = s.bounding_box();
             let pb = p.bounding_box();
             // sampled rows: the edges of the shape box and of the styled box, the stroke / fill transitions, the
@@ -398,7 +528,7 @@ fn huge_c<C: Col>(d: &mut Dec, cx: &mut Cx) -> Res {
             let (y0, y1) = (bb.top_left.y.min(pb.top_left.y), (bb.top_left.y + bb.size.height as i32).max(pb.top_left.y + pb.size.height as i32));
             let mut rows: std::collections::BTreeSet<i32> = Default::default();
             let sw = style.stroke_width as i32;
-            for base in [y0, y1, pb.top_left.y, pb.top_left.y + pb.size.height as i32, pb.top_left.y + sw, pb.top_left.y + pb.size.height as i32 - sw, pb.top_left.y + sw / 2, pb.top_left.y + (pb.size.height / 2) as i32] {
+            for base in [y0, y1, pb.top_left.y, pb.top_left.y + pb.size.height as i32, pb.top_left.y + sw, pb.top_left.y + pb.size.height as i32 - sw, pb.top_left.y + sw / 2, pb.top_left.y + (pb.size.height / 2) as i32, pb.top_left.y + (pb.size.height as f64 * 0.14645) as i32, pb.top_left.y + (pb.size.height as f64 * 0.85355) as i32] {
                 for k in -2..=2 {
                     rows.insert(base + k);
                 }
@@ -406,70 +536,7 @@ fn huge_c<C: Col>(d: &mut Dec, cx: &mut Cx) -> Res {
             for _ in 0..20 {
                 rows.insert(d.i(y0 - 3, y1 + 3));
             }
-            let mut t = RowsT::<C>::new(rows.iter().copied());
-            s.draw(&mut t).map_err(|e| Fail { sig: format!("{}:draw_error", kind), detail: format!("{:?}", e) })?;
-            let expected = |q: Point| -> Option<C> {
-                if fa.contains(q) {
-                    style.fill_color
-                } else if sa.contains(q) && style.stroke_width > 0 {
-                    style.stroke_color
-                } else {
-                    None
-                }
-            };
-            let (x0, x1) = (bb.top_left.x.min(pb.top_left.x), (bb.top_left.x + bb.size.width as i32).max(pb.top_left.x + pb.size.width as i32));
-            let (mut fill_rows, mut stroke_rows) = (0, 0);
-            for &y in &rows {
-                let mut probes: std::collections::BTreeSet<i32> = Default::default();
-                let mut near = |x: i32| {
-                    for k in -2..=2 {
-                        probes.insert(x + k);
-                    }
-                };
-                near(x0);
-                near(x1);
-                near((x0 + x1) / 2);
-                for x in t.run_ends(y) {
-                    near(x);
-                }
-                // the boundaries of both areas in this row, by bisection from the box edges towards the middle
-                // (only a way to find interesting probes: every probe is judged by the areas themselves)
-                for area_is_fill in [false, true] {
-                    let inside = |x: i32| if area_is_fill { fa.contains(Point::new(x, y)) } else { sa.contains(Point::new(x, y)) };
-                    let mid = (x0 + x1) / 2;
-                    if inside(mid) {
-                        let (mut lo, mut hi) = (x0 - 2, mid);
-                        while hi - lo > 1 {
-                            let m = lo + (hi - lo) / 2;
-                            if inside(m) { hi = m } else { lo = m }
-                        }
-                        near(hi);
-                        let (mut lo, mut hi) = (mid, x1 + 2);
-                        while hi - lo > 1 {
-                            let m = lo + (hi - lo) / 2;
-                            if inside(m) { lo = m } else { hi = m }
-                        }
-                        near(lo);
-                    }
-                }
-                for _ in 0..6 {
-                    probes.insert(d.i(x0 - 3, x1 + 3));
-                }
-                for &x in &probes {
-                    let q = Point::new(x, y);
-                    let (exp, got) = (expected(q), t.color_at(q));
-                    if exp == style.fill_color && exp.is_some() && fa.contains(q) { fill_rows += 1; }
-                    if exp.is_some() && !fa.contains(q) { stroke_rows += 1; }
-                    if exp != got && kind == "rounded_rectangle" {
-                        // F-26 (known finding): points where fill area / shape / stroke area are not nested
-                        let (f, sh, st) = (fa.contains(q), p.contains(q), sa.contains(q));
-                        if (f && !sh) || (f && !st) || (sh && !st) {
-                            return fail("rounded_rectangle:areas_not_nested", format!("fill_area() / the shape / stroke_area() are not nested at {:?} (fill {}, shape {}, stroke {}), and draw() differs from the areas there: leaves {:?}, areas give {:?}", q, f, sh, st, got, exp));
-                        }
-                    }
-                    ensure!(exp == got, format!("{}:draw_vs_areas", kind), "{:?}: draw() leaves {:?}, fill_area()/stroke_area() give {:?} (fill_area contains: {}, stroke_area contains: {})", q, got, exp, fa.contains(q), sa.contains(q));
-                }
-            }
+            let (fill_rows, stroke_rows) = judge_rows!(kind, p, style, &rows, 6, |lo: i32, hi: i32| d.i(lo, hi))?;
             cx.count("huge_probe_points_fill", fill_rows);
             cx.count("huge_probe_points_stroke", stroke_rows);
             cx.nontrivial(fill_rows > 0 && stroke_rows > 0);
